@@ -12,7 +12,7 @@ import time
 # property -> (harness modules, harness names)
 PROPS: dict[str, dict] = {
     "C05": {"modules": ["vf.h_fail", "vf.h_shm"], "harnesses": ["shm-atexit", "fail-healthcheck", "fail-executor-loop", "fail-task-body", "fail-bridge-events", "fail-controller-run"]},
-    "C07": {"modules": ["vf.h_xfer"], "harnesses": ["data-transfers"]},
+    "C07": {"modules": ["vf.h_xfer", "vf.h_shmclient"], "harnesses": ["data-transfers", "shm-client-roundtrip"]},
     "C06": {"modules": ["vf.h_comms"], "harnesses": ["ack-messaging", "retry-budget-step", "frame-sequences"]},
     "C11": {"modules": ["vf.h_xform"], "harnesses": ["xform-copy-rename", "xform-dedup-fuse", "xform-split-expand"]},
     "C14": {"modules": ["vf.h_names"], "harnesses": ["fluent-names", "fluent-operands"]},
@@ -28,8 +28,8 @@ PROPS: dict[str, dict] = {
     "C03": {"modules": ["vf.h_ctrl"], "harnesses": ["ctrl-C03", "plan-step"]},
     "C04": {"modules": ["vf.h_ctrl"], "harnesses": ["ctrl-C04"]},
     "C17": {"modules": ["vf.h_wire", "vf.h_comms", "vf.h_wire2"], "harnesses": ["shm-wire-smt", "frame-sequences", "wire-pickle-json"]},
-    "C08": {"modules": ["vf.h_shm"], "harnesses": ["shm-step", "shm-server-dispatch"]},
-    "C09": {"modules": ["vf.h_shm"], "harnesses": ["shm-step-bytes", "shm-evict-liveness"], "cpu_quick": 16 * 600.0},
+    "C08": {"modules": ["vf.h_shm"], "harnesses": ["shm-step", "shm-server-dispatch", "shm-init"]},
+    "C09": {"modules": ["vf.h_shm", "vf.h_shmclient"], "harnesses": ["shm-step-bytes", "shm-evict-liveness", "shm-client-roundtrip"], "cpu_quick": 16 * 600.0},
 }
 
 
